@@ -366,17 +366,57 @@ func completenessRule(P *Program, R *Report) {
 	for f, w := range want {
 		R.decide(rule, kCredBuilder+":field:"+f, "builder field "+f+" is taken from "+w, got[f] == w, "got "+got[f], P.Pos(bf.Pos()))
 	}
-	fa := &ForAll{P: P, Spec: ForAllSpec{Coll: is(nb + ".undisclosedAttributes"), Body: func(f *ssa.Function, l *Loop) *MustPass {
-		return &MustPass{Instr: func(_ *ssa.Function, i ssa.Instruction) bool {
-			mu, ok := i.(*ssa.MapUpdate)
-			if !ok || desc(mu.Map) != nb+".attrRandomizers" || desc(mu.Key) != nb+".undisclosedAttributes[#i]" {
-				return false
+	// the per-index randomiser: a map update attrRandomizers[undisclosed[i]] = fresh RandomBigInt drawn in the same
+	// loop, on every non-failing path through the body of a loop over the undisclosed indices - in the
+	// constructor itself or in a helper it calls (whose success the constructor then requires)
+	dpbC := "<gabi.DisclosureProofBuilder>"
+	m := forAllMemo{detail: "no map update attrRandomizers[undisclosedAttributes[i]] = RandomBigInt(...) found in the constructor or its helpers"}
+	for _, sk := range sinksOfDeep(bf) {
+		mu, isMU := sk.ins.(*ssa.MapUpdate)
+		if !isMU || canonOwner(sk.target) != dpbC+".attrRandomizers" {
+			continue
+		}
+		ck := canonOwner(sk.key)
+		if ck != dpbC+".undisclosedAttributes[#i]" && ck != dpbC+".undisclosedAttributes[*]" {
+			continue
+		}
+		if canonOwner(sk.loopColl) != dpbC+".undisclosedAttributes" {
+			m.detail = "the update is in a loop over " + sk.loopColl
+			continue
+		}
+		h := mu.Parent()
+		l := innermostLoopOf(mu.Block())
+		g := genCallOf(mu.Value)
+		if l == nil || g == nil || calleeName(g) != "common.RandomBigInt" || !l.Body[g.Block()] {
+			m.detail = "the stored value is not a RandomBigInt drawn inside the loop"
+			continue
+		}
+		hacc, okAcc := accOfFn(h, Nil)
+		if !okAcc {
+			hacc = AcceptAny()
+		}
+		q := &MustPass{P: P, Instr: func(_ *ssa.Function, i ssa.Instruction) bool { return i == ssa.Instruction(mu) }}
+		r := q.ForAllBody(h, l, hacc, true)
+		if !r.Holds {
+			m.detail = r.Path
+			continue
+		}
+		if h != bf {
+			// the constructor succeeds only if the helper did
+			q2 := &MustPass{P: P, Match: func(a Atom) bool {
+				c, _ := callAndResult(a.V)
+				return c != nil && staticCallee(c) == h && (a.Want == Nil || a.Want == True)
+			}}
+			if okAcc {
+				if r2 := q2.Check(bf, AcceptNilErr(1)); !r2.Holds {
+					m.detail = "the helper's failure is not propagated: " + r2.Path
+					continue
+				}
 			}
-			c, idx := callAndResult(mu.Value)
-			return c != nil && idx == 0 && calleeName(c) == "common.RandomBigInt" && l.Body[c.Block()]
-		}}
-	}}}
-	m := fa.inFn(bf, AcceptNilErr(1))
+		}
+		m.holds, m.detail = true, "loop at "+P.Pos(loopPos(l))+" in "+FuncKey(h)
+		break
+	}
 	R.decide(rule, kCredBuilder+":randomizer-per-hidden", "every undisclosed index gets its own fresh randomiser (generated inside the loop) on every successful path", m.holds, m.detail, P.Pos(bf.Pos()))
 }
 
